@@ -252,7 +252,7 @@ def prepare(tier, seed):
                     c = by_id[r['id']]
                     diffs.append({'id': r['id'], 'stream': r['stream'], 'feature': bool(r['feature']), 'kind': r['kind'],
                                   'region': r['region'], 'at': r['line'], 'model': r['model'], 'impl': r['impl'], 'fe_parts': r.get('fe_parts'),
-                                  'text': c['text'], 'prefix': D.to_prefix(c['def']), 'verdict': r['verdict']})
+                                  'text': c['text'], 'prefix': D.to_prefix(c['def']), 'verdict': r['verdict'], 'model_verdict': r['model_verdict']})
             samples = []
             for r in res[:: max(1, len(res) // 6)][:6]:
                 samples.append({'id': r['id'], 'verdict': r['verdict'], 'tokens': r['ntokens'], 'text': by_id[r['id']]['text'][:600]})
